@@ -178,6 +178,7 @@ def body(ctx: Ctx, p: dict) -> None:
     stats = None
     seen_validation = False
     prev = {"left": None, "right": None}
+    cv_flags = {}
     for rec, (name, cfg) in zip(snaps, steps):
         kind = rec["kind"]
         for side in ("left", "right"):
@@ -193,6 +194,16 @@ def body(ctx: Ctx, p: dict) -> None:
                                         0, 1, tag)
             if f"{side}_m" not in rec:
                 continue
+            # the disparity map got its own flags at the disparity step: what later steps add to them (3, 4/5, 8/9, 11)
+            # is not written back into the cost volume, whose flags keep telling which costs are computable
+            if kind == "disparity":
+                cv_flags[side] = rec[f"{side}_cvmask"]
+            elif cv_flags.get(side) is not None and not np.array_equal(cv_flags[side], rec[f"{side}_cvmask"]):
+                r, c = np.argwhere(cv_flags[side] != rec[f"{side}_cvmask"])[0]
+                ctx.violation("C04/cost-volume-flags-changed-after-disparity",
+                              f"{side} after {name} {(int(r), int(c))}: {int(cv_flags[side][r, c])} -> "
+                              f"{int(rec[f'{side}_cvmask'][r, c])} {tag}")
+                cv_flags[side] = None
             m, d = rec[f"{side}_m"].astype(int), rec[f"{side}_d"]
             if (m >= 4096).any():
                 ctx.violation("C04/undocumented-bit", f"{side} after {name}: values {np.unique(m[m >= 4096])[:4]} {tag}")
